@@ -135,6 +135,11 @@ parser { loop outer { loop { /[ab]/; n = [n + 1]; if n > 1 { if $last == 'b' { i
     ("feat-deep-finish-append", [], """out int{unsigned, size 1} n = 0; out str[3] s; finishcode F; hook h;
 parser { loop { try { /[abc]/; n = [n + 1]; if n > 1 { if $last == 'b' { if s.len == 2 { finish F; } else { s += [66]; } } elif $last == 'c' { if n > 2 { s += [67]; } } } h(); } catch (outofspace) { h(); delete s; "!"; } } }"""),
 ]
+# byte classes with one collapsible run and several isolated members (which tests survive range collapsing must not depend on set iteration order)
+FEATURES += [
+    ("feat-ranges-isolated", ["-O2"], """out str[8] t; out int m = 0; hook h;
+parser { t += /[a-h_z]+/; "!"; case { /[0-4,.;]/ -> { m = 1; } /[A-F\\-+*]/ -> { m = 2; } /[x-z$%&]/ -> { m = 3; } } h(); /[^k-p#@]/; "?"; }"""),
+]
 # programs the compiler must reject in code generation (used by the checks that look at emitted text only)
 CODEGEN_REJECTED = [
     # an action-only conditional among the start actions that mentions $last: there is no byte yet
